@@ -8,6 +8,8 @@ area = "parse"
 driver = "drv_parse"
 cxx = False
 fixed_lines = 1
+# allocation requests of the library go through counting wrappers of the driver (op `p oom`)
+link_extra = ["-Wl,--wrap=malloc", "-Wl,--wrap=calloc", "-Wl,--wrap=realloc"]
 rule = ("scripts = 'p fmt <description> <sect flags> <opt flags>' then groups of 'p input <bytes>', 'p config' "
         "(event list through a recording handler) and 'p node' (target tree before/after), closed by 'p end' "
         "(allocation balance + LeakSanitizer); stream 1 enumerates EVERY string up to length 4 (length 5 where that is at most 60000 strings; thorough: up "
@@ -20,7 +22,7 @@ rule = ("scripts = 'p fmt <description> <sect flags> <opt flags>' then groups of
         "with an anonymous section / empty-named element / named section / option inside; stream 3 = grammar-generated files mutated by delete/duplicate/flip x name flag sets x handler "
         "refusals x pre-populated target trees x read errors, each file also through mpt_node_parse (stdio stream, name restriction texts, with and without logger) and default-format files through mpt_parse_folder; non-trivial = a script in which the real code "
         "delivered at least one element to the handler or built a node (event list / tree not empty), counted "
-        "per distinct script; behind every parse (every third one in stream 1) the op 'p stat' / 'x stat' compares "
+        "per distinct script; behind every parse (every fourth one in stream 1) the op 'p stat' / 'x stat' compares "
         "return code, line counter, number of getc calls, consumed bytes and the representation (inline / buffer) of "
         "the stored values with the model in the observable column (a difference fails the check); 'p config fail=k' "
         "reports whether the handler refused: 'ok' together with 'refused=yes' is not an allowed outcome")
@@ -56,6 +58,24 @@ def with_stat(lines, every=1):
             if k % every == 0:
                 out.append(w[0] + " stat")
     return out
+
+
+def with_keep(lines, every=1):
+    """behind (every `every`-th) plain `p config` the same parse with a handler that keeps shared references to the
+    path buffer of every event"""
+    out = []
+    k = 0
+    for ln in lines:
+        out.append(ln)
+        if ln == "p config":
+            k += 1
+            if k % every == 0:
+                out.append("p config keep")
+    return out
+
+
+def keep_all(named, every=1):
+    return [(n, with_keep(s, every)) for n, s in named]
 
 
 def stat_all(named, every=1):
@@ -384,15 +404,51 @@ def formats(tier, seed, scale):
     return out
 
 
+def oom(tier, seed):
+    """allocation refusal: for each input (short and long names / values, nesting, values of 249..700 bytes that take
+    the buffer metatype) mpt_parse_node into a scratch target is run once per allocation request k = 1..N with
+    request k refused; a failure has to leave the scratch target empty and nothing may stay allocated"""
+    r = gen.rng(id, tier, seed, "oom")
+    out = []
+    vals = [1, 40, 249, 250, 300, 320, 700] + ([5000, 65536] if tier != "quick" else [])
+    inputs = []
+    for L in vals:
+        v = "v" * L
+        inputs.append((None, "a=%s\n" % v))
+        inputs.append((None, "s {\nshort = value\nlong = \"%s\"\nt {\nu=%s\n}\n}\nlast=1\n" % (v, v)))
+        inputs.append(("{*} =;#", "sect { short = value; long = %s; }\nlast = four;\n" % v))
+        inputs.append(("[ ] = #", "o=1\n[s]\nk=%s\n[t]\n" % v))
+        inputs.append(("|x| = #", "|s\nk=%s\n" % v))
+        inputs.append(("{x} = #", "{s\nk=%s\n}\n" % v))
+    for L in (1, 63, 64, 200, 300):
+        inputs.append((None, "%s {\n%s=1\n}\n" % ("n" * L, "m" * L)))
+    inputs.append((None, "a {\nb {\nc {\nd {\ne=1\n}\n}\n}\n}\n"))
+    top = 36 if tier == "quick" else 80
+    for i, (desc, text) in enumerate(inputs):
+        lines = [fmt_line(desc), "p input " + hx(text)]
+        lines += ["p oom %d" % k for k in range(1, top + 1)]
+        lines += ["p root .", "p node", "p end"]
+        out.append(("oom:%d" % i, lines))
+    return out
+
+
+def deep(tier):
+    """nesting depth beyond what a recursive cleanup survives: the text is built by the driver"""
+    lines = [fmt_line(None), "p deep 20 closed", "p deep 20 open", "p deep 400000 closed"]
+    if tier != "quick":
+        lines += ["p deep 400000 open", "p deep 1000000 closed"]
+    return [("deep", lines + ["p end"])]
+
+
 def scripts(tier, seed, scale=1):
-    out = stat_all(exhaustive(tier), 3)
+    out = stat_all(keep_all(exhaustive(tier), 8), 4)
     rest = []
     rest += long_tokens(tier)
     rest += noassign(tier)
     rest += buffer_steps(tier)
     rest += grammar(tier, seed, scale)
     rest += formats(tier, seed, scale)
-    return out + stat_all(rest)
+    return out + stat_all(keep_all(rest)) + oom(tier, seed) + deep(tier)
 
 
 def nontrivial(script, c_lines):
@@ -457,6 +513,12 @@ class _XX:
                              "x file " + hx("=1\n{\nz=3\n}\n"), "x reset", "x read",
                              "x file " + hx(g), "x reset", "x read", "x open", "x read", "x end"]
                     out.append(("xx:seq:%s:%d:%d" % (hx(desc or "d"), good.index(g), bad.index(b)), lines))
+        # the file disappears while the parser holds it: reset fails, the parser has no input until the next open
+        for g in good[:2]:
+            out.append(("xx:unlink:%d" % good.index(g),
+                        ["x new 255 255", "x fmt null", "x file " + hx(g), "x open", "x read", "x unlink", "x reset", "x read",
+                         "x file " + hx(good[2]), "x reset", "x open", "x read", "x unlink", "x read", "x open",
+                         "x file " + hx(g), "x read", "x end"]))
         n = (150 if tier == "quick" else 1500) * scale
         for k in range(n):
             desc, style, delims = r.choice(GRAMMARS)
